@@ -1106,6 +1106,23 @@ Example nv_C19_driver_never_doomed :
   drun drv_cf (dst0 drv_cf) (firstn 21 drv_sched) = (drv_mid, snd (drun drv_cf (dst0 drv_cf) (firstn 21 drv_sched))).
 Proof. split; [cbn; lia|]. unfold drv_mid. destruct (drun drv_cf (dst0 drv_cf) (firstn 21 drv_sched)); reflexivity. Qed.
 
+(* ================================================= the serial driver (C16, C19) *)
+From SLT Require Import Serial SerialProofs.
+(* five files, fail-fast: the third fails; Ctrl-C never arrives *)
+Example nv_serial_plain :
+  let st := srun true (sst0 [FPass; FPass; FFails false; FPass; FFails true]) (plain_schedule [FPass; FPass; FFails false; FPass; FFails true]) in
+  s_reported st = [ROk; ROk; RErr false; RSkipped; RSkipped] /\ sexit st = 1%N /\ s_todo st = [].
+Proof. vm_compute. repeat split; reflexivity. Qed.
+(* Ctrl-C while the second file runs *)
+Example nv_C16_serial_every_file_reported_once :
+  let st := srun false (sst0 [FPass; FPass; FFails false]) [SRun false; SRun true; SRun false] in
+  s_todo st = [] /\ s_reported st = [ROk; RCancelled; RSkipped] /\ s_ctrlc st = true /\ sexit st = 1%N.
+Proof. vm_compute. repeat split; reflexivity. Qed.
+Example nv_C19_serial_no_new_work :
+  s_token (srun false (sst0 [FPass; FPass; FPass]) [SRun false; SCtrlC]) = true /\
+  s_reported (srun false (srun false (sst0 [FPass; FPass; FPass]) [SRun false; SCtrlC]) [SRun false; SRun false]) = [ROk; RSkipped; RSkipped].
+Proof. vm_compute. split; reflexivity. Qed.
+
 (* ###################################################################### *)
 From SLT Require Import Partition PartitionProofs.
 Open Scope N_scope.
